@@ -1162,8 +1162,10 @@ class CompositeEnvelope:
                 assert isinstance(s.envelope, Envelope)
                 s.envelope._set_measured()
 
-        self._containers[self.uid].update_all_indices()
+        # Empty product states are dropped first: the indices refer to the position
+        # in the list of the remaining product states
         self._containers[self.uid].remove_empty_product_states()
+        self._containers[self.uid].update_all_indices()
         return outcomes
 
     def measure_POVM(
